@@ -53,7 +53,11 @@ func runFamily(fam string, w *bufio.Writer, r *rng, id, size int, opt string) bo
 				genCall(w, r, id, cfgSingle, 8, "call")
 			}
 		case "acyclic":
-			genCall(w, r, id, cfgAcyclic, 8, "call")
+			if r.chance(1, 3) {
+				emitCall(w, genLayered(r, cfgAcyclic), id, 6, "call", "fam=layered")
+			} else {
+				genCall(w, r, id, cfgAcyclic, 8, "call")
+			}
 		case "exact":
 			sc := genExact(r, cfgGeneral)
 			sc.multiTyped(r)
